@@ -194,6 +194,10 @@ DOCSTRINGS = [
     "reST.\n\n:param a: first\n:type a: int\n:param int b: second\n:param c:\n:returns: something\n:rtype: dict[str, int]\n:raises ValueError: bad\n",
     "reST broken.\n\n:param: nothing\n:type: int\n:rtype:\n:returns:\n:param a b c: too many\n",
     "Mixed.\n\nParameters\n----------\nArgs:\n    a: x\n:param a: y\n\nReturns\n-------\nReturns:\n",
+    # type expressions of unusual shape in the type position (boolean operators with literal operands, sets, ellipsis, calls)
+    "Numpy types.\n\nParameters\n----------\na : int or 0\n    x\nb : str or True, optional\n    y\nc_ : float or 1.5 or ...\n_d : list of int or None\ne1 : {1, 2.5, None}\nfooBar : int and 3\ng_h_i : dict(str, int) or -1\n\nReturns\n-------\nint or 0\n    r\n",
+    "Google types.\n\nArgs:\n    a (int or 0): x\n    b (str or True): y\n    c_ (float or 1.5): z\n    _d (int and ...): w\n    e1 (not int): v\n    fooBar (list[int] or [1, 2]): u\n\nReturns:\n    int or 0: r\n",
+    "reST types.\n\n:param a: x\n:type a: int or 0\n:param b: y\n:type b: str or True\n:param c_: z\n:type c_: float or 1.5 or ...\n:rtype: int or 0\n",
     "Unicode λ and braces {x} and `code` and */ closer and \\ backslash.",
     "   \n\n   indented start\n",
     "",
